@@ -577,6 +577,14 @@ def _resolve_const(prog, fn_key, e):
     return d
 
 
+def _through_take(e):
+    """`x.take()` / `mem::take(&mut x)` / `mem::replace(&mut x, ..)` hold the value x had: for a test of that value they are x."""
+    e = strip(e)
+    while e[0] == "call" and e[1] in ("std::option::Option::<T>::take", "std::mem::take", "std::mem::replace") and e[2]:
+        e = strip(e[2][0])
+    return e
+
+
 def _scenario_assume(prog, fn_key, adt, field, scen, depth):
     """PEval assumption for "adt.field is in state `scen`" that also follows calls of local bool predicates (incl. closures
     run through rt::execution) and resolves captured constants."""
@@ -595,10 +603,11 @@ def _scenario_assume(prog, fn_key, adt, field, scen, depth):
             e = e[2]
             pol = not pol
         if e[0] == "discr":
-            subj = strip(e[1])
+            subj = _through_take(strip(e[1]))
             if is_field(subj, adt, field) and outer in ("None", "Some"):
                 return pick(t, 1 if outer == "Some" else 0)
-            if subj[0] == "field" and subj[2] == "0" and strip(subj[1])[0] == "as" and is_field(strip(strip(subj[1])[1]), adt, field) and inner:
+            if subj[0] == "field" and subj[2] == "0" and strip(subj[1])[0] == "as" and \
+                    is_field(_through_take(strip(strip(subj[1])[1])), adt, field) and inner:
                 names = dict((n, v) for (v, n) in (e[3] or []))
                 if not names and e[2] in prog.adts:
                     names = dict((v["name"], v.get("discr", i)) for i, v in enumerate(prog.adts[e[2]]["variants"]))
